@@ -60,7 +60,7 @@ def recursion_bounded(ctx):
                     consuming.append(bb)
     # (b) ancestor test
     def anc(d):
-        return d[0] == "call" and re.search(r"slice::<impl \[.*\]>::contains$|::contains$", d[1]) and not d[1].endswith("contains_key")
+        return d[0] == "call" and re.search(r"slice::<impl \[.*\]>::contains$|::contains$", d[1]) and not d[1].endswith("contains_key") and "<impl str>" not in d[1] and "str::" not in d[1]
     et = bool_edges(b, anc, True)
     ef = bool_edges(b, anc, False)
     ancestor = False
@@ -325,10 +325,25 @@ def loader_fns(ctx):
     return out
 
 
+def _locals_read_cfg(body, l, depth=0):
+    """locals a (compiler) temporary is computed from: through copies, binops, `Len` and casts"""
+    out = set()
+    if depth > 6:
+        return out
+    for kind, x, bb in body.prov.defs.get(l, ()):
+        if kind == "assign":
+            pl, cs = rv_sources(x["rv"])
+            for p in pl:
+                out.add(p["local"])
+                out |= _locals_read_cfg(body, p["local"], depth + 1)
+    return out
+
+
 @rule("C14.NAME-CHECKS", ["C14"], """a project is accepted only if its name (when present) and all its target names are valid; both failures are errors""", "K1", floor=2)
 def name_checks(ctx):
     f = ctx.f
     for b in loader_fns(ctx):
+        b = ctx.r.V(b)   # a validation step extracted into a helper (`validate_names(&project)?`) is part of the loader
         validators = {x.name for x in f.user_bodies() if x.ret == "bool" and x.argc == 1 and any(tt["callee"]["base"].endswith("Regex::is_match") for _, tt in x.calls())}
         ctx.need(len(validators) >= 1, "name validators (Regex::is_match)")
         oks = [(bb, st) for (bb, st) in b.aggregates("Result", "Ok") if st["lhs"]["local"] == 0]
@@ -357,6 +372,24 @@ def name_checks(ctx):
             G_any = guard_region(b, lambda d: d[0] == "call" and d[3] == bb, True) | guard_region(b, lambda d: d[0] == "call" and d[3] == bb, False)
             if any(x in Rsome or x in G_any for (x, st) in b.aggregates("Result", "Err")) and not any(x in Rsome for x, st in oks):
                 good = True
+        if not good:
+            # `let invalid: Vec<_> = names.filter(|n| !valid(n)).collect(); match invalid[..] { [] => Ok, .. => Err }`: an Err controlled by the filtered collection
+            for bb, t in b.calls():
+                if re.search(r"Iterator>::(filter|filter_map)(::<.*>)?$", callee_decl(t)) and len(t["args"]) > 1:
+                    at = b.prov.operand_atoms(t["args"][0])
+                    clos = [a[1] for a in b.prov.operand_atoms(t["args"][1]) if a[0] == "closure"]
+                    if not (any(validators & f.cg.reach([c]) for c in clos) and atom_has_field(at, "targets")):
+                        continue
+                    finders.append((bb, t))
+                    fl = b.prov.flows_forward(t["dest"]["local"])
+                    for e in b.edges:
+                        l = e.label
+                        tested = l[2] if l and l[0] in ("bool", "val", "val-otherwise") else (l[3]["local"] if l and l[0] == "variant" and l[3] else None)
+                        if tested is None:
+                            continue
+                        if (tested in fl or any(x in fl for x in _locals_read_cfg(b, tested))) and any(x in b.dominated_by_edge(e) for (x, st) in b.aggregates("Result", "Err")) \
+                                and not any(x in b.dominated_by_edge(e) for x, st in oks):
+                            good = True
         ctx.check(good, f"{short(b.name)}/target-names", [site(b, x[0]) for x in finders] or [b.loc()], "an invalid target name does not make the loader fail")
 
 
@@ -814,6 +847,27 @@ def names_offered(ctx):
     m = r.main_body()
     # the listing function: local fn returning Vec<String> called in main whose result flows to possible_values
     cands = [b for b in f.user_bodies() if b.ret == "std::vec::Vec<std::string::String>" and b.kind in ("AssocFn", "Fn") and any(callee_base(t) == b.name for _, t in m.calls())]
+    # ... the one whose result is offered to the argument parser (`possible_values`), possibly inside the closure given to `mut_arg`
+    def offered(b):
+        mr = f.bodies[m.name]
+        for bb, t in mr.calls():
+            if callee_base(t) == b.name:
+                fl = mr.prov.flows_forward(t["dest"]["local"])
+                for x in [mr] + [f.bodies[n] for n in f.bodies if n.startswith(mr.name + "::{")]:
+                    for cb, ct in x.calls():
+                        if ct["callee"]["base"].endswith("Arg::<'help>::possible_values") or ct["callee"]["base"].endswith("::possible_values"):
+                            if x is mr:
+                                if any(operand_local(a) in fl for a in ct["args"]):
+                                    return True
+                            else:
+                                # in a closure of main: the listed names are captured
+                                for blk in mr.normal_blocks():
+                                    for st in blk["stmts"]:
+                                        if st["rv"]["k"] == "agg" and st["rv"].get("closure") == x.name and any(operand_local(o) in fl for o in st["rv"]["ops"]):
+                                            return True
+        return False
+    narrowed = [b for b in cands if offered(b)]
+    cands = narrowed or cands
     ctx.need(cands, "function listing the offered target names")
     for b in cands:
         at = b.prov.atoms(0)
